@@ -109,6 +109,8 @@ type interpreter struct {
 	wrapErrorPtr types.Type
 	initDirect *ssa.Function
 	fmtDepth   int
+	stack      []*ssa.Function
+	stackAtPanic []*ssa.Function
 }
 
 type deferred struct {
@@ -517,6 +519,17 @@ func callSSA(i *interpreter, caller *frame, callpos token.Pos, fn *ssa.Function,
 		panic(unsupported{"no code for function: " + fn.String()})
 	}
 	i.noteFunc(fn)
+	i.stack = append(i.stack, fn)
+	defer func(n int) {
+		if r := recover(); r != nil {
+			if i.stackAtPanic == nil {
+				i.stackAtPanic = append([]*ssa.Function(nil), i.stack...)
+			}
+			i.stack = i.stack[:n]
+			panic(r)
+		}
+		i.stack = i.stack[:n]
+	}(len(i.stack) - 1)
 	fr.env = make(map[ssa.Value]value)
 	fr.block = fn.Blocks[0]
 	fr.locals = make([]value, len(fn.Locals))
